@@ -15,7 +15,7 @@ func init() { Registry["C02"] = C02 }
 
 // C02 — code bound to client, redirect_uri, lifetime; grant immutable.
 func C02(c *run.Ctx) {
-	n := c.N(600, 24000)
+	n := c.N(600, 100000)
 	c.Need("foreign_or_wrong_redirect_attempts", 1)
 	c.Need("redeem_ok", 1)
 	c.Need("expired_code_attempts", 1)
